@@ -310,6 +310,7 @@ func init() {
 		Stub:        []string{"net.Listener (SimListener)", "net.Conn (SimConn)", "Backend/Session (SimBackend)", "clock (testing/synctest fake clock)", "SMTP client (raw driver)"},
 		Assumptions: []string{"go-smtp is compiled with go1.26.8 for the simulation; the baseline suite uses go1.23.5", "the reference unstuffer follows RFC 5321 4.5.2 with CRLF-only line ends"},
 		Required:    []string{"segment_boundary_inside_CRLF_dot", "dotCR_or_CRCRLF", "stuffed_dot_line", "short_read", "client_pauses_longer_than_WriteTimeout_inside_message", "pipelined_envelope_slow_callback_then_message_paced_within_ReadTimeout"},
+		Instr:       true,
 		QuickRuns:   150000, ThoroughRuns: 4000000,
 	})
 }
